@@ -20,6 +20,7 @@ import (
 	"net/http/httptest"
 	"net/url"
 	"os"
+	"os/exec"
 	"path/filepath"
 	"strconv"
 	"strings"
@@ -171,10 +172,10 @@ func c04Predicate(c *c04Case, file []byte, idx desync.Index, err error) (class, 
 		}
 		return "", ""
 	}
-	wellFormedFrame := ref.HdrType == c04IndexType && ref.TblType == c04TableType && ref.TblSize == c04MaxUint64 && ref.Marker == c04TailMarker
+	wellFormedFrame := ref.HdrType == c04IndexType && ref.TblType == c04TableType && ref.TblSize == c04MaxUint64 && ref.Fill2 == 0 && ref.Marker == c04TailMarker
 	if !wellFormedFrame {
 		if accepted {
-			return "accepts-bad-marker", "IndexFromReader accepted a file whose element types / table size / tail marker are wrong"
+			return "accepts-bad-marker", "IndexFromReader accepted a file whose element types / table size / tail record (0, 0, .., .., marker) are wrong"
 		}
 		return "", ""
 	}
@@ -782,6 +783,96 @@ func c04Stores(a vh.Args, r *vh.Result, rng *vh.Rand, n int) error {
 	return nil
 }
 
+// c04CLI: the console index store ("-") and the file store through the desync binary.
+func c04CLI(a vh.Args, o *vh.Oracle, r *vh.Result, rng *vh.Rand) error {
+	bin := os.Getenv("VH_DESYNC")
+	if bin == "" {
+		r.Note("VH_DESYNC not set: CLI cases skipped")
+		return nil
+	}
+	run := func(stdin []byte, args ...string) (int, []byte) {
+		cmd := exec.Command(bin, args...)
+		cmd.Stdin = bytes.NewReader(stdin)
+		var out bytes.Buffer
+		cmd.Stdout = &out
+		err := cmd.Run()
+		if err == nil {
+			return 0, out.Bytes()
+		}
+		if ee, ok := err.(*exec.ExitError); ok {
+			return ee.ExitCode(), out.Bytes()
+		}
+		return -1, out.Bytes()
+	}
+	for t := 0; t < 3; t++ {
+		c := c04GenIndex(rng, []int{0, 3, 40}[t])
+		c.Digest = []string{"sha512-256", "sha256", "sha512-256"}[t]
+		if c.Digest == "sha256" {
+			c.Flags &^= c04SHA512Flag
+		} else {
+			c.Flags |= c04SHA512Flag
+		}
+		if !c04WF(c) {
+			continue
+		}
+		c04SetDigest(c.Digest)
+		idx := c04BuildIndex(c)
+		var buf bytes.Buffer
+		idx.WriteTo(&buf)
+		file := filepath.Join(a.Work, fmt.Sprintf("cli%d.caibx", t))
+		os.WriteFile(file, buf.Bytes(), 0644)
+		var want strings.Builder
+		for _, row := range c.Rows {
+			want.WriteString(row.ID + "\n")
+		}
+		for _, src := range []string{file, "-"} {
+			rc, out := run(buf.Bytes(), "list-chunks", "--digest", strings.Replace(c.Digest, "sha512-256", "sha512-256", 1), src)
+			r.Count(fmt.Sprintf("cli|list|%d|%s", t, src == "-"), true)
+			r.Dist("cli:list-chunks")
+			if rc != 0 || string(out) != want.String() {
+				r.Fail("predicate", "cli-list-chunks", fmt.Sprintf("desync list-chunks %s: exit %d, %d bytes of output, expected the %d ids of the index", src, rc, len(out), len(c.Rows)), c)
+			}
+			cut := rng.Intn(buf.Len())
+			os.WriteFile(file+".cut", buf.Bytes()[:cut], 0644)
+			srcCut := src
+			if src != "-" {
+				srcCut = file + ".cut"
+			}
+			rc, _ = run(buf.Bytes()[:cut], "list-chunks", "--digest", c.Digest, srcCut)
+			r.Count(fmt.Sprintf("cli|list-trunc|%d|%s", t, src == "-"), true)
+			if rc == 0 {
+				r.Fail("predicate", "cli-accepts-truncated", fmt.Sprintf("desync list-chunks accepted an index cut at %d of %d bytes", cut, buf.Len()),
+					&c04Case{Kind: "decode", Digest: c.Digest, Mut: fmt.Sprintf("prefix@%d", cut), FileHex: vh.Hex(buf.Bytes()[:cut]), Truncated: true})
+			}
+		}
+	}
+	// desync make writing the index to stdout (ConsoleIndexStore.StoreIndex)
+	blob := filepath.Join(a.Work, "cli.blob")
+	data, _ := vh.Blob(rng, 40000+rng.Intn(30000))
+	os.WriteFile(blob, data, 0644)
+	for _, digest := range []string{"sha512-256", "sha256"} {
+		rc, out := run(nil, "make", "--digest", digest, "-m", "64:256:1024", "-", blob)
+		c := &c04Case{Kind: "decode", Digest: digest, Mut: "cli-make-stdout", FileHex: vh.Hex(out)}
+		r.Count("cli|make|"+digest, true)
+		r.Dist("cli:make-stdout")
+		ref, complete := c04RefParse(out)
+		switch {
+		case rc != 0 || !complete:
+			r.Fail("predicate", "cli-make", fmt.Sprintf("desync make - : exit %d, %d bytes", rc, len(out)), c)
+		case ref.HdrSize != 48 || ref.IndexOffset != 48 || ref.TableSize != uint64(len(out)-48) || ref.End != len(out) || ref.Marker != c04TailMarker:
+			r.Fail("predicate", "layout-tail-sizes", "index written by desync make to stdout is not canonical", c)
+		case len(ref.Offsets) == 0 || ref.Offsets[len(ref.Offsets)-1] != uint64(len(data)):
+			r.Fail("predicate", "cli-make-length", "last end offset differs from the blob length", c)
+		case (ref.Flags&c04SHA512Flag != 0) != (digest != "sha256"):
+			r.Fail("predicate", "cli-make-digest-flag", "digest flag of the written index disagrees with --digest", c)
+		}
+		if err := c04Decode(a, o, r, c); err != nil {
+			return err
+		}
+	}
+	return nil
+}
+
 func runC04(a vh.Args, o *vh.Oracle, r *vh.Result) error {
 	r.Rule = "case = (generated index -> WriteTo) or (byte string -> IndexFromReader); non-trivial = an index with >= 1 row, or a file that is a strict prefix / single-field corruption / row swap / duplicated offset / fixture (not the unmodified file); distinct by (digest, mutation, length, content hash)"
 	if a.Replay != "" {
@@ -870,5 +961,8 @@ func runC04(a vh.Args, o *vh.Oracle, r *vh.Result) error {
 	if a.Tier == "thorough" {
 		nstore = 40
 	}
-	return c04Stores(a, r, rng, nstore)
+	if err := c04Stores(a, r, rng, nstore); err != nil {
+		return err
+	}
+	return c04CLI(a, o, r, rng)
 }
